@@ -1,10 +1,12 @@
 #!/bin/bash
-# run the baseline suite, compare with BASELINE.json stable_pass
-cd /repo && /venv/bin/python -m pytest -q -p no:cacheprovider --timeout=900 --continue-on-collection-errors -n 12 --junitxml=/tmp/bl.xml >/tmp/bl.log 2>&1
-/venv/bin/python - <<'PY'
-import json,xml.etree.ElementTree as ET
+# run the baseline suite of a tree (default /repo), compare with BASELINE.json stable_pass; exit 1 if a stable test no longer passes
+D=${1:-/repo}
+X=/tmp/bl-$$.xml
+cd $D && PYTHONPATH=$D /venv/bin/python -m pytest -q -p no:cacheprovider --timeout=900 --continue-on-collection-errors -n 12 --junitxml=$X >/tmp/bl-$$.log 2>&1
+/venv/bin/python - $X <<'PY'
+import json,sys,xml.etree.ElementTree as ET
 b=json.load(open('/root/.vp/BASELINE.json'))
-t=ET.parse('/tmp/bl.xml').getroot()
+t=ET.parse(sys.argv[1]).getroot()
 ok=set()
 for tc in t.iter('testcase'):
     if not any(c.tag in('failure','error','skipped') for c in tc):
@@ -12,5 +14,8 @@ for tc in t.iter('testcase'):
 miss=[x for x in b['stable_pass'] if x not in ok]
 print('stable_pass',len(b['stable_pass']),'passing now',len(ok),'missing',len(miss))
 for m in miss[:20]: print('  MISSING',m)
-import sys; sys.exit(1 if miss else 0)
+sys.exit(1 if miss else 0)
 PY
+rc=$?
+rm -f $X /tmp/bl-$$.log
+exit $rc
